@@ -6,6 +6,7 @@ import Got.Lemmas.DiscMSQueue
 import Got.Lemmas.DiscWheel
 import Got.Lemmas.DiscWaitClose
 import Got.Lemmas.DiscCache
+import Got.Lemmas.DiscTaskQ
 /-
 C18 — goroutine-safe APIs are free of data races (publication discipline).
 
@@ -112,6 +113,21 @@ theorem C18_cache_old_status_rejected :
     accepts (Got.Model.CacheEvents.errEvents Got.Model.CacheEvents.ctlCfg true 0 Got.Model.Cache.init
       Got.Model.CacheEvents.oldStatusRun) = false :=
   Got.Lemmas.DiscCache.old_status_rejected
+
+/-- taskx: `taskCallback.result/err` of every task — written by the single consumer in `Do` before `wg.Done`, read
+    by clients' `Get1/Get2` after `Wait` (events from the C09 model extended by client Get actions), in the scope
+    C18 states: each task is executed once (`execCount ≤ 1`). -/
+theorem C18_taskq_result_race_free (cap : Nat) (acts : List Got.Model.TaskQEvents.XAct) (k : Nat)
+    (honce : Got.Model.TaskQEvents.execCount k (Got.Model.TaskQEvents.xrun (Got.Model.TaskQ.init cap) acts) ≤ 1) :
+    RaceFree (Got.Model.TaskQEvents.resultEvents k (Got.Model.TaskQ.init cap) acts) :=
+  Got.Lemmas.DiscTaskQ.result_raceFree cap acts k honce
+
+/-- the scope is necessary: a second `Do` of a task after a client's Get2 (documented limitation in
+    task_callback.go), directly or by re-sending the task, yields a rejected trace. -/
+theorem C18_taskq_second_do_rejected :
+    accepts (Got.Model.TaskQEvents.resultEvents 0 (Got.Model.TaskQ.init 1) Got.Lemmas.DiscTaskQ.redoActs) = false ∧
+    accepts (Got.Model.TaskQEvents.resultEvents 0 (Got.Model.TaskQ.init 1) Got.Lemmas.DiscTaskQ.resendActs) = false :=
+  ⟨Got.Lemmas.DiscTaskQ.second_do_rejected, Got.Lemmas.DiscTaskQ.resend_rejected⟩
 
 /-- The pre-fix shapes are rejected by the discipline. -/
 theorem C18_old_ants_torn_rejected : accepts oldAntsTornTrace = false := by decide
